@@ -379,7 +379,7 @@ V("c15-n-ntw-burn-inline", "C15", "pass", edits=[(FTF, "    full_a_vec = concate
 V("c15-n-plane-change-if-statement", "C15", "pass", edits=[(FTF, "    delta_a = array([0, 0, magnitude]) if state[2] >= 0 else array([0, 0, -magnitude])\n", "    if state[2] >= 0:\n        delta_a = array([0, 0, magnitude])\n    else:\n        delta_a = array([0, 0, -magnitude])\n")])
 CLF = "dynamics/celestial.py"
 V("c15-revert-F13-twobody-thrust", "C15", "violation", "C15.R3", revert="43d5466")
-V("c15-revert-F15-restart-increment", "C15", "violation", "C15.R4", revert="40f63cb")
+V("c15-revert-F15-restart-increment", "C15", "violation", "C15.R4", edits=[(CLF, "            initial_time = solution.t[-1] + _restartIncrement(solution.t[-1])", "            initial_time = solution.t[-1] + spacing(solution.t[-1])"), (CLF, "            current_time += _restartIncrement(current_time)", "            current_time += spacing(current_time)")])  # the reversed fix 40f63cb as edits (the reverse patch no longer applies after a8f827e)
 V("c15-n-restart-constant-increment", "C15", "pass", edits=[(CLF, "    return max(spacing(time), 2 * finfo(float).resolution)", "    return max(spacing(time), 1e-14)")])
 V("c15-restart-half-tolerance", "C15", "violation", "C15.R4", edits=[(CLF, "    return max(spacing(time), 2 * finfo(float).resolution)", "    return max(spacing(time), 0.5 * finfo(float).resolution)")])
 V("c15-rearm-inclusive-end", "C15", "violation", "C15.R2", edits=[(CLF, "and event.start_time < initial_time < event.end_time", "and event.start_time < initial_time <= event.end_time")])
